@@ -13,6 +13,7 @@ RULE = ('for every accepted (grammar, shell) the pair (DFA::from_regex_raw, .min
         'an independent minimisation of the input. sources: exhaustive trees <= N nodes, seeded random '
         'grammars, and a family biased to all-accepting automata, optional tails and shared suffixes. '
         'non-trivial = input automaton has >= 3 states; distinct by hash of the raw automaton')
+RULE += ' ' + 'Further sources: long word sequences over 2-3 literals; 2-4 literals under nested repetition / option / alternation (top level and inside one word); the nested automata as stored inside the compiled automaton are judged too (language of some within-word regex, minimal size).'
 ASSUMPTIONS = ['inputs are compared by interned identity, which minimize() carries over unchanged',
                'cgv/automata.py (Moore refinement, product search) is the trusted oracle']
 MIN_EVALS = {'quick': 10000, 'thorough': 100000}
